@@ -52,10 +52,10 @@ if __name__ == "__main__":
                 pats.append("else")
             prio = f"prio {rng.randint(1, 3)} " if greedy and rng.random() < 0.6 else ""
             if greedy:
-                # a clause body of nothing but hook calls is scheduled on the way INTO the clause's
-                # finish state, which in a greedy case may still continue (known finding, fixed
-                # corpus below): greedy clauses are marked with yield codes, or hooks next to a match
-                body = rng.choice([f"yield Y{j};", f"yield Y{j};", f'{hooks[j]}(); "k";', "", f'"m"; {hooks[j]}();'])
+                # greedy clauses are marked by yield codes as well as hooks (a hook-only body whose
+                # finish state can still continue is a diagnosed scheduling error since the repair
+                # recorded in known_findings.json)
+                body = rng.choice([f"yield Y{j};", f"{hooks[j]}();", f'{hooks[j]}(); "k";', "", f'"m"; {hooks[j]}();'])
             else:
                 body = rng.choice([f"{hooks[j]}();", f'{hooks[j]}(); "k";', "", f'"m"; {hooks[j]}();'])
             lines.append(f"    {prio}{', '.join(pats)} -> {{ {body} }}")
